@@ -20,10 +20,12 @@ import (
 	"io"
 
 	"github.com/douban/gobeansdb/cmem"
+	"github.com/douban/gobeansdb/config"
 )
 
 var _ = bufio.NewReader
 var _ = cmem.DBRL
+var _ = config.MCConf
 
 // ---------- ghost accessors (interpreted by govc) ----------
 
@@ -31,6 +33,7 @@ func streamLen(w io.Writer) int     { return 0 }
 func streamFlushed(w io.Writer) int { return 0 }
 func ghostStream(w io.Writer) bool  { return true }
 func ghostFail() bool               { return true }
+func ghostReader(r io.Reader) bool  { return true }
 func ghostClock() bool              { return true }
 func all(x interface{}) bool        { return true }
 func fresh(x interface{}) bool      { return true }
@@ -60,18 +63,30 @@ var ghostHandedOver map[*Request]bool
 
 // ---------- assumed ----------
 
-// the parser: consumes one command from the connection; remembers whether it asked for no reply
+// the parser: consumes one command from the connection. Verified for the buffer accounting (C12):
+// every error return has undone the count of the value buffer and released it; a command accepted
+// with an item leaves exactly that item counted once. (What the line means - splitting, numbers -
+// is opaque: any split and any numbers are considered.)
 //@ func (req *Request) Read
 //@   props C11 C12
 //@   ints bv
-//@   assumed parser of one command line (+ value block); string splitting and number parsing are opaque to the verifier
-//@   requires ghostNoReply != nil && ghostHandedOver != nil
-//@   modifies all(req), ghostNoReply[req], ghostHandedOver[req], ghostFail(), ghostClock(), cmem.DBRL.SetData.Size, cmem.DBRL.SetData.MaxSize, cmem.DBRL.SetData.Count, cmem.DBRL.SetData.MaxCount, cmem.AllocRL.Size, cmem.AllocRL.MaxSize, cmem.AllocRL.Count, cmem.AllocRL.MaxCount
-//@   ensures ghostNoReply[req] == (result0 == nil && req.NoReply) && !ghostHandedOver[req]
+//@   requires b != nil && ghostNoReply != nil && ghostHandedOver != nil && RL != nil && req.Item == nil && !req.NoReply
+//@   requires ErrNetworkError != nil && ErrInvalidCmd != nil && ErrValueTooLarge != nil && ErrOOM != nil && ErrBadDataChunk != nil && ErrNonMemcacheCmd != nil
+//@   requires 0 <= config.MCConf.BodyMax && config.MCConf.BodyMax < 1<<31
+//@   requires cmem.DBRL.SetData.Count >= 0 && cmem.DBRL.SetData.Count < 1<<40 && cmem.DBRL.SetData.Size >= 0 && cmem.DBRL.SetData.Size < 1<<60
+//@   modifies all(req), ghostNoReply[req], ghostHandedOver[req], ghostFail(), ghostClock(), ghostReader(b), cmem.DBRL.SetData.Size, cmem.DBRL.SetData.MaxSize, cmem.DBRL.SetData.Count, cmem.DBRL.SetData.MaxCount, cmem.AllocRL.Size, cmem.AllocRL.MaxSize, cmem.AllocRL.Count, cmem.AllocRL.MaxCount
+//@   ensures [assumed] ghostNoReply[req] == (result0 == nil && req.NoReply) && !ghostHandedOver[req]
 //@   ensures req.Item != nil ==> fresh(req.Item)
-//@   ensures result0 != nil ==> cmem.DBRL.SetData.Count == old(cmem.DBRL.SetData.Count) && cmem.DBRL.SetData.Size == old(cmem.DBRL.SetData.Size)      // C12: a rejected command leaves no counted buffer behind (the error paths of Read undo the count)
+//@   ensures result0 == nil && req.Item != nil && req.Item.CArray.Cap > 0 ==> int64(req.Item.CArray.Cap) <= config.MCConf.BodyMax      // C11: an over-long value is rejected, never allocated
+//@   ensures result0 != nil ==> cmem.DBRL.SetData.Count == old(cmem.DBRL.SetData.Count) && cmem.DBRL.SetData.Size == old(cmem.DBRL.SetData.Size)
 //@   ensures result0 == nil && req.Item != nil ==> cmem.DBRL.SetData.Count == old(cmem.DBRL.SetData.Count)+1 && cmem.DBRL.SetData.Size == old(cmem.DBRL.SetData.Size)+int64(req.Item.CArray.Cap)
 //@   ensures result0 == nil && req.Item == nil ==> cmem.DBRL.SetData.Count == old(cmem.DBRL.SetData.Count) && cmem.DBRL.SetData.Size == old(cmem.DBRL.SetData.Size)
+
+//@ func (rl *ReqLimiter) Get
+//@   props C11 C12
+//@   ints bv
+//@   assumed takes a token from the limiter (channel receive, may block)
+//@   modifies req.Token, req.Working, ghostClock()
 
 // the interpreter: a response object (nil for quit); no reply is suppressed unless the command asked for it
 //@ func (req *Request) Process
@@ -125,7 +140,7 @@ var ghostHandedOver map[*Request]bool
 //@   props C11 C12
 //@   ints bv
 //@   requires c.req != nil && c.rbuf != nil && c.wbuf != nil && storageClient != nil && stats != nil && ghostNoReply != nil && ghostHandedOver != nil && RL != nil && accessLogger != nil
-//@   requires streamFlushed(c.wbuf) == streamLen(c.wbuf) && !c.closeAfterReply
+//@   requires streamFlushed(c.wbuf) == streamLen(c.wbuf) && !c.closeAfterReply && c.req.Item == nil && !c.req.NoReply
 //@   modifies *
 //@   ensures err == nil && !c.closeAfterReply ==> streamFlushed(c.wbuf) == streamLen(c.wbuf)
 //@   ensures err == nil && !c.closeAfterReply ==> streamLen(c.wbuf) > old(streamLen(c.wbuf)) || ghostNoReply[c.req]
